@@ -246,7 +246,13 @@ def t2_parallel_chain(ctx, use_threading=True):
         szl.update({k: first.h_sizes[k] for k in first.h_in})
         szl["w"] = 2
         discs[-1] = HDisc(last.name, first.h_in, [*last.h_out, "w"], szl, salt=last.h_salt + 5, hook=hook)
-    cfg = {"workload": ("T2c-additive" if additive else "T2c-parallel-chain") + "/" + mode, "n_disc": n, "overlapping_output": bool(overlap),
+    # with use_deep_copy=True every discipline owns its input arrays: a body overwriting them in place must not
+    # be seen by the other disciplines nor by the caller (execute-only: the Jacobian is taken at io.data)
+    inplace = bool(deep) and t.flag(0.5, "inplace_bodies")
+    if inplace:
+        for d in discs:
+            d.h_inplace = True
+    cfg = {"workload": ("T2c-additive" if additive else "T2c-parallel-chain") + "/" + mode, "n_disc": n, "overlapping_output": bool(overlap), "inplace_bodies": inplace,
            "n_workers": n_workers, "deep_copy": bool(deep), "durations": durations, "preempt": preempt,
            "disciplines": [(d.name, d.h_in, d.h_out) for d in discs]}
     ctx.event("cfg", canon(cfg))
@@ -263,16 +269,22 @@ def t2_parallel_chain(ctx, use_threading=True):
         for c in range(n_calls):
             with t.frame("call"):
                 x = draw_input(t, {k: sizes[k] for k in used_inputs}, f"x{c}")
-                lin = t.flag(0.5, "linearize")
+                lin = t.flag(0.5, "linearize") and not inplace
+                passed = {k: v.copy() for k, v in x.items()}
                 try:
                     if lin:
-                        jac = chain.linearize({k: v.copy() for k, v in x.items()}, compute_all_jacobians=True)
+                        jac = chain.linearize(passed, compute_all_jacobians=True)
                         data = chain.io.data
                     else:
-                        data = chain.execute({k: v.copy() for k, v in x.items()})
+                        data = chain.execute(passed)
                         jac = None
                 except Deadlock as d:
                     ctx.violate("C13.liveness", sig + " deadlock", str(d))
+                if inplace:
+                    ctx.probe("inplace_bodies_with_deep_copy")
+                    for k, v in x.items():
+                        if not _eq_data(passed[k], v) or not _eq_data(chain.io.data[k], v):
+                            ctx.violate("C13.chain_data", sig + " inplace", f"call {c}: the caller's/chain's input {k} was overwritten by a discipline body: passed={passed[k]} chain={chain.io.data[k]} x={v}; cfg={cfg}")
                 ctx.event("call", c, lin, canon(x), canon({k: data[k] for k in sorted(chain.io.output_grammar)}))
                 # sequential oracle
                 exp = {}
